@@ -188,7 +188,7 @@ theorem frame_entries {x0 : Option TT.Entry} {s : State} {bd : Nat} {st : St} (h
   · rw [h1] at hx; exact hx0 x hx
 
 theorem tail_rootE {x0 : Option TT.Entry} (ctx : Ctx) (a : NodeArgs) (alpha beta : Eval)
-    (hk : (hash K a.s).toNat = k0) (hb : MaterialBounded a.s) (hα : alpha < 10000) (bound : Nat)
+    (hk : (hash K a.s).toNat = k0) (hα : alpha < 10000) (bound : Nat)
     (hx0 : ∀ e, x0 = some e → e.maxDepth - e.depth ≤ bound + 1 ∧ Avoids K H a.s e)
     (hsd : a.maxDepth - a.curDepth = bound + 1)
     {ms : List (Move × State)} (hms : legalMoves? a.s = some ms) (hprio : PrioOK a)
@@ -238,7 +238,7 @@ theorem tail_rootE {x0 : Option TT.Entry} (ctx : Ctx) (a : NodeArgs) (alpha beta
       | some e =>
         simp only
         refine Triple.pure fun st hp => ⟨hp.1.1, frame_entries hp.1 hx0, fun h => ?_⟩
-        have := static_lt hb he
+        have := static_lt he
         exfalso; eomega
     · rw [if_neg hn]
       cases best with
@@ -269,7 +269,7 @@ theorem tail_rootE {x0 : Option TT.Entry} (ctx : Ctx) (a : NodeArgs) (alpha beta
           replace hwin : (10000 : Int) ≤ alpha' := hwin
           eomega
 
-theorem probe_rootE (ctx : Ctx) (a : NodeArgs) (hk : (hash K a.s).toNat = k0) (hb : MaterialBounded a.s)
+theorem probe_rootE (ctx : Ctx) (a : NodeArgs) (hk : (hash K a.s).toNat = k0)
     (hα : a.alpha < 10000) (bound : Nat) (hsd : a.maxDepth - a.curDepth = bound + 1)
     {ms : List (Move × State)} (hms : legalMoves? a.s = some ms) (hprio : PrioOK a)
     (child : NodeArgs → M Eval)
@@ -289,7 +289,7 @@ theorem probe_rootE (ctx : Ctx) (a : NodeArgs) (hk : (hash K a.s).toNat = k0) (h
   have htail : Triple (fun st' => st' = st ∧ (TT.AInv L nT nB st.tt ∧
       ∀ x, st.tt.find k0 = some x → x.maxDepth - x.depth ≤ bound ∧ Avoids K H a.s x))
       (tail ctx a (hash K a.s) a.alpha a.beta (some child)) (RootPost K H L nT nB a.s k0 (bound + 1)) :=
-    (tail_rootE g ctx a a.alpha a.beta hk hb hα bound (x0 := st.tt.find k0)
+    (tail_rootE g ctx a a.alpha a.beta hk hα bound (x0 := st.tt.find k0)
       (fun e he => ⟨Nat.le_succ_of_le (hst.2 e he).1, (hst.2 e he).2⟩) hsd hms hprio child (hchild _) hzero).conseq
       (fun st' hp => by rw [hp.1]; exact ⟨hp.2.1, Or.inr rfl⟩) fun _ _ h => h
   cases hf : st.tt.find (hash K a.s).toNat with
@@ -304,7 +304,7 @@ theorem probe_rootE (ctx : Ctx) (a : NodeArgs) (hk : (hash K a.s).toNat = k0) (h
       exact htail
 
 theorem nodeBody_rootE (ctx : Ctx) (hK : ctx.keys = K) (a : NodeArgs) (hk : (hash K a.s).toNat = k0)
-    (hb : MaterialBounded a.s) (hα : a.alpha < 10000) (bound : Nat) (hsd : a.maxDepth - a.curDepth = bound + 1)
+    (hα : a.alpha < 10000) (bound : Nat) (hsd : a.maxDepth - a.curDepth = bound + 1)
     (hcur : a.curDepth = 0)
     {ms : List (Move × State)} (hms : legalMoves? a.s = some ms) (hprio : PrioOK a)
     (child : NodeArgs → M Eval)
@@ -331,7 +331,7 @@ theorem nodeBody_rootE (ctx : Ctx) (hK : ctx.keys = K) (a : NodeArgs) (hk : (has
       (if (decide (a.curDepth > 0) && ctx.history.contains (hash ctx.keys a.s)) = true then pure 0
         else probe ctx a (hash ctx.keys a.s) (some child)) (RootPost ctx.keys H L nT nB a.s k0 (bound + 1)) := by
     rw [if_neg (by rw [hcur]; simp)]
-    exact probe_rootE g ctx a hk hb hα bound hsd hms hprio child hchild hzero
+    exact probe_rootE g ctx a hk hα bound hsd hms hprio child hchild hzero
   split
   · refine Triple.bind (R := fun _ st => TT.AInv L nT nB st.tt ∧
         ∀ x, st.tt.find k0 = some x → x.maxDepth - x.depth ≤ bound ∧ Avoids ctx.keys H a.s x)
@@ -351,7 +351,7 @@ and a returned value `≥ POS_INF` leaves an entry there. -/
 theorem searchNode_rootE (ctx : Ctx) (hK : ctx.keys = K) (hH : ctx.history = H) (rem : Nat) (a : NodeArgs)
     (hk : (hash K a.s).toNat = k0)
     (hk0 : ∀ s, (hash K s).toNat = k0 → H.contains (hash K s) = true)
-    (hb : MaterialBounded a.s) (hα : a.alpha < 10000) (bound : Nat) (hsd : a.maxDepth - a.curDepth = bound + 1)
+    (hα : a.alpha < 10000) (bound : Nat) (hsd : a.maxDepth - a.curDepth = bound + 1)
     (hcur : a.curDepth = 0) {ms : List (Move × State)} (hms : legalMoves? a.s = some ms) (hprio : PrioOK a) :
     Triple (fun st => TT.AInv L nT nB st.tt ∧
         ∀ x, st.tt.find k0 = some x → x.maxDepth - x.depth ≤ bound ∧ Avoids K H a.s x)
@@ -359,7 +359,7 @@ theorem searchNode_rootE (ctx : Ctx) (hK : ctx.keys = K) (hH : ctx.history = H) 
   rw [searchNode_succ]
   subst hK
   subst hH
-  exact nodeBody_rootE g ctx rfl a hk hb hα bound hsd hcur hms hprio _
+  exact nodeBody_rootE g ctx rfl a hk hα bound hsd hcur hms hprio _
     (fun x0 args hd => searchNode_frame g ctx hk0 rem args hd)
     (fun args hd hin => searchNode_hist_zero ctx rem args hd hin)
 
@@ -509,7 +509,7 @@ theorem runWorker_complete (depth : Nat) (hdB : depth + 1 ≤ B) (best : Option 
   obtain ⟨ms, hms⟩ := dom.gen hD
   have hr := searchNode_rootE (K := K) (H := H) (k0 := (hash K root).toNat) g ctx hK hH depth
     (rootArgs root (depth + 1) best) rfl
-    (fun s hs => by rw [UInt64.toNat_inj.1 hs]; exact hhist) (dom.bounded _ hD)
+    (fun s hs => by rw [UInt64.toNat_inj.1 hs]; exact hhist)
     (show - Ev.mateInPly 0 < 10000 by decide) depth (show depth + 1 - 0 = depth + 1 by omega) rfl hms hbest
     { tt := tt, rng := rng, nodes := 0, polls := polls } ⟨htt.1, hre⟩ e stw hexec
   refine ⟨s1, c1.2, s2, fun hw => ?_, fun hwin => ?_, hr⟩
